@@ -201,6 +201,10 @@ func c14Keys(c *Ctx) {
 	check([]cParam{{"c", "e2"}, {"s", "a"}})
 	check([]cParam{{"s", casbin.NewEnforceContext("").GetCacheKey()}, {"s", "a"}})
 	check([]cParam{{"x", ""}, {"s", "a"}})
+	// a string that spells a context's key, with and without the marker the key function puts in front of one
+	check([]cParam{{"s", "@EnforceContext{r-p-e-m}"}, {"s", "a"}})
+	check([]cParam{{"s", "@EnforceContext{r-p-e2-m}"}, {"s", "a"}})
+	check([]cParam{{"s", "EnforceContext{r-p-e-m}"}, {"s", "a"}})
 	// a request handed over as ONE []string value is one value that cannot be cached, not the tuple of its fields
 	check([]cParam{{"l", "a,b,c"}})
 	check([]cParam{{"s", "a"}, {"s", "b"}, {"s", "c"}})
